@@ -187,29 +187,32 @@ theorem retire_g {c : Cfg} (w : WF c) {qlen T P : Nat} {st : St} (inv : GInv c q
 
 /-- the loop invariant: the tube array and the ticker -/
 def GL (c : Cfg) (qlen : Nat) (l : Loop) (p : Nat) : Prop :=
-  ∃ T, GInv c qlen T p l.st ∧ l.ticker = ((tickPos c T : Nat) : Int) + 1 - p ∧ p ≤ tickPos c T ∧
+  ∃ T, GInv c qlen T p l.st ∧ l.ticker = tickPos c T + 1 ∧ p ≤ tickPos c T ∧
     (T = 0 ∨ tickPos c (T - 1) < p)
 
-theorem onKmer_g {c : Cfg} (w : WF c) {qlen p : Nat} {l : Loop} (h : GL c qlen l p) (ts : List Nat)
+/-- one query position of the scan (`stepPos`: the common k-mers of the position — none where the
+    callback is skipped — then `tick(p + 1)`) -/
+theorem stepPos_g {c : Cfg} (w : WF c) {qlen p : Nat} {l : Loop} (h : GL c qlen l p) (ts : List Nat)
     (hts : ∀ t ∈ ts, t < c.tlen) (hp : p ≤ qlen) (hwide : c.off + c.maxError ≤ qlen + 1) :
-    GL c qlen (onKmer c l p ts) (p + 1) := by
+    GL c qlen (stepPos c l p ts) (p + 1) := by
   obtain ⟨T, inv, htk, hle, hTp⟩ := h
+  have hoff := w.off_pos
   have inv1 := fold_g w hp hTp hwide ts l.st hts inv
-  unfold onKmer
-  simp only []
+  unfold stepPos kmers
   by_cases hfire : p = tickPos c T
-  · rw [if_pos (by omega)]
+  · rw [tick_one c hoff _ (p + 1) (by show l.ticker = p + 1; omega)]
     refine ⟨T + 1, ?_, ?_, ?_, ?_⟩
-    · show GInv c qlen (T + 1) (p + 1) (tubeEnd c _ p)
+    · show GInv c qlen (T + 1) (p + 1) (tubeEnd c _ (p + 1 - 1))
+      rw [Nat.add_sub_cancel]
       unfold tubeEnd
       rw [hfire, tubeEndIndex_tick w T, ← hfire]
       exact tick_g w inv1 hfire hp
-    · show (c.off : Int) = _
+    · show p + 1 + c.off = _
       rw [tickPos_succ w]; omega
-    · rw [tickPos_succ w]; have := w.off_pos; omega
+    · rw [tickPos_succ w]; omega
     · right; simp only [Nat.add_sub_cancel]; omega
-  · rw [if_neg (by omega)]
-    exact ⟨T, inv1.mono (Nat.le_succ _), by show l.ticker - 1 = _; omega, by omega, hTp.imp id (by omega)⟩
+  · rw [tick_done _ _ _ (by show p + 1 < l.ticker; omega)]
+    exact ⟨T, inv1.mono (Nat.le_succ _), htk, by omega, hTp.imp id (by omega)⟩
 
 theorem scan_g {c : Cfg} (w : WF c) (qlen : Nat) (ts : Nat → List Nat) (hts : ∀ p t, t ∈ ts p → t < c.tlen)
     (hwide : c.off + c.maxError ≤ qlen + 1) (l0 : Loop) (h0 : GL c qlen l0 0) :
@@ -220,7 +223,7 @@ theorem scan_g {c : Cfg} (w : WF c) (qlen : Nat) (ts : Nat → List Nat) (hts : 
   | succ N ih =>
     intro hN
     rw [scanN_succ]
-    exact onKmer_g w (ih (by omega)) (ts N) (hts N) (by omega) hwide
+    exact stepPos_g w (ih (by omega)) (ts N) (hts N) (by omega) hwide
 
 /-- invariant of the final flush loop from index `x` on: a slot holding an emittable run was last
     addressed under an index `≥ x` -/
@@ -283,11 +286,11 @@ theorem runFilter_hits_dom {c : Cfg} (w : WF c) (ts : Nat → List Nat) (qlen : 
   have hoff := w.off_pos
   have hcap := w.cap_pos
   have h0 : GL c qlen
-      { st := { tubes := Array.replicate c.cap default, hits := [] }, ticker := ((c.off + c.maxError : Nat) : Int) } 0 := by
+      { st := { tubes := Array.replicate c.cap default, hits := [] }, ticker := c.off + c.maxError } 0 := by
     refine ⟨0, ⟨by simp, ?_, ?_, by simp⟩, ?_, Nat.zero_le _, Or.inl rfl⟩
     · intro slot; rw [getTube_init]; exact Nat.le_refl _
     · intro slot hne; rw [getTube_init] at hne; exact absurd rfl hne
-    · show ((c.off + c.maxError : Nat) : Int) = _
+    · show c.off + c.maxError = _
       unfold tickPos; omega
   obtain ⟨T, inv, _, hle, _⟩ := scan_g w qlen ts hts hwide _ h0 (qlen - c.k + 1) (by omega)
   unfold runFilter
@@ -324,30 +327,39 @@ theorem runFilter_hits_dom {c : Cfg} (w : WF c) (ts : Nat → List Nat) (qlen : 
   exact (flush_g hcap hmin qlen _ _ _ hfl).hits
 
 open Biogo.Proofs.FilterComplete Biogo.Proofs.Kmer Biogo.Proofs.KmerIndex Biogo.Spec.Kmer Biogo.Kmer in
-/-- the same for `filter` (repaired rule) on the built index of the target and a query without
-    invalid letters: every returned hit has `-Diagonal ≤ Qlen` and `From ≤ Qlen` -/
+/-- the same for `filter` (repaired rule, ticker on the query position) on the built index of the
+    target and **any** query, on either strand: every returned hit has `-Diagonal ≤ Qlen` and
+    `From ≤ Qlen`.  (Positions whose window holds a letter outside the alphabet contribute no common
+    k-mer — `tsOf … = []` — and the ticks that fall on them are caught up by `tick`, so the
+    invariant of the tube array is the one of a query over the alphabet.) -/
 theorem filter_hits_dom {lk : Lookup} (hlk : FourLetter lk) (t q : List UInt8) (k : Nat) (p : Params)
-    (selfAlign : Bool) (hk1 : 1 ≤ k) (hk2 : 2 * k ≤ wordBits) (ht : k ≤ t.length) (hq : AllValid lk q)
+    (selfAlign complement : Bool) (hk1 : 1 ≤ k) (hk2 : 2 * k ≤ wordBits) (ht : k ≤ t.length)
     (hkq : k ≤ q.length) (he : p.maxError ≤ p.tubeOffset) (hoff : 1 ≤ p.tubeOffset)
     (hqe : p.maxError + 1 ≤ q.length) (hwide : p.tubeOffset + p.maxError ≤ q.length + 1)
     (hthr : 0 < minWordsPerFilterHit p.minMatch k p.maxError)
-    (hits : List Hit) (hf : filter repaired lk (builtIndex lk k t) p q selfAlign false = .ok hits) :
+    (hits : List Hit) (hf : filter repaired lk (builtIndex lk k t) p q selfAlign complement = .ok hits) :
     ∀ h ∈ hits, HitDom q.length h := by
-  have e := filter_eq_run hlk repaired (builtIndex lk k t) p q selfAlign false hk1 hk2 hq hkq he hoff
+  have e := filter_eq_run hlk repaired (builtIndex lk k t) p q selfAlign complement rfl hk1 hk2 hkq he hoff
   simp only [] at e
   rw [e] at hf
   split at hf
   · cases hf
   · cases hf
     intro h hh
-    have hw : WF (mkCfg repaired k t.length p selfAlign false) := ⟨hoff, he, rfl, rfl, rfl⟩
+    have hw : WF (mkCfg repaired k t.length p selfAlign complement) := ⟨hoff, he, rfl, rfl⟩
     refine runFilter_hits_dom hw _ q.length ?_ hk1 hkq hqe hwide hthr h (List.mem_reverse.mp hh)
     intro pos x hx
-    change x ∈ targetPositions (builtIndex lk k t) (wordFn lk k q pos) at hx
-    rw [mem_targetPositions hlk k hk1 hk2 t ht _ (wordFn_lt hlk k q pos)] at hx
-    have := (wordOf_some hlk k _ _ hx).1
-    rw [List.length_drop] at this
-    show x < t.length
-    omega
+    unfold tsOf at hx
+    rw [builtIndex_k] at hx
+    cases hwq : wordAt lk k q pos with
+    | none => rw [hwq] at hx; cases hx
+    | some wq =>
+      rw [hwq] at hx
+      simp only [] at hx
+      rw [mem_targetPositions hlk k hk1 hk2 t ht _ (wordOf_some hlk k _ _ hwq).2] at hx
+      have := (wordOf_some hlk k _ _ hx).1
+      rw [List.length_drop] at this
+      show x < t.length
+      omega
 
 end Biogo.Proofs.PalsChainDomain
